@@ -23,6 +23,7 @@ Record case := mk_case {
   c_kind : opk; c_fin : finisher; c_mode : mode; c_skip : bool;
   c_ret : bool;                        (* RETURNING supported and present: the write goes through QueryContext *)
   c_orc : list dres;                   (* what the database answered during the real run, call by call *)
+  c_dorc : list dres;                  (* ... and during the dry run (only Begin/Commit can be asked) *)
   (* observed, DryRun *)
   o_dry_log : list ev; o_dry_sql : string; o_dry_vars : list scalar; o_dry_err : bool;
   (* observed, real run from an identical handle on the same data *)
@@ -63,7 +64,7 @@ Definition run_model (cf : cfg) (c : case) (orc : list dres) : rst :=
   end.
 
 Definition model_agrees (c : case) : bool :=
-  let d := run_model (dry_of c) c [] in
+  let d := run_model (dry_of c) c (c_dorc c) in
   let r := run_model (real_cfg (c_skip c)) c (c_orc c) in
   evs_eqb (r_log d) (o_dry_log c)
   && Bool.eqb (r_err d) (o_dry_err c)
